@@ -609,10 +609,10 @@ example :
 /-- `header_writes_absorb_short_writes` observed: two chunks written at position 1 of a 3-byte device
 (overwriting, then extending), sink accepting 1 or 2 bytes per call alternately. -/
 example :
-    (writeAllSeq (Model.shortWr (fun k => 1 + k % 2)) ⟨[1, 2, 3], 1, 0⟩ [[9, 9, 9], [8]]).2.buf
+    (writeAllSeq (Model.shortWr (fun k => 1 + k % 2)) { buf := [1, 2, 3], pos := 1, calls := 0 } [[9, 9, 9], [8]]).2.buf
         = [1, 9, 9, 9, 8] ∧
-    (Model.M.writeChunks [[9, 9, 9], [8]] none ⟨[1, 2, 3], 1, 0⟩).2.buf = [1, 9, 9, 9, 8] ∧
-    (writeAllSeq (Model.shortWr (fun k => 1 + k % 2)) ⟨[1, 2, 3], 1, 0⟩ [[9, 9, 9], [8]]).2.calls = 3 := by
+    (Model.M.writeChunks [[9, 9, 9], [8]] none { buf := [1, 2, 3], pos := 1, calls := 0 }).2.buf = [1, 9, 9, 9, 8] ∧
+    (writeAllSeq (Model.shortWr (fun k => 1 + k % 2)) { buf := [1, 2, 3], pos := 1, calls := 0 } [[9, 9, 9], [8]]).2.calls = 3 := by
   decide +kernel
 
 end ZipVerif.Props.C09
